@@ -13,7 +13,7 @@ Traces == JsonDeserialize(IOEnv.TRACE_FILE)
 
 VARIABLES tid, ei
 tvars == <<now, kbuf, hung, npeer, pc, entry, targ, teff, endTime, tleft, waitEnd,
-           outcome, startedAt, returnedAt, readableAtStart, consumed, echo, polls, tid, ei>>
+           outcome, startedAt, returnedAt, readableAtStart, consumed, echo, polls, wake, tid, ei>>
 
 Tr == Traces[tid]
 MaxI(a, b) == IF a >= b THEN a ELSE b
@@ -49,6 +49,7 @@ TPeer == /\ ei <= Len(Tr.events) /\ EvTime = now
          /\ CASE EvKind \in {"x", "m"} -> PeerEmit(EvKind)
               [] EvKind = "H" -> PeerHangup
               [] EvKind = "E" -> PeerEchoOff
+              [] EvKind \in {"U", "S"} -> EnvWake      \* urgent data from the peer / a signal handled by the parent
          /\ ei' = ei + 1 /\ tid' = tid
 
 TTick == /\ (ei <= Len(Tr.events) => now < EvTime)
@@ -59,13 +60,13 @@ TEnter == /\ pc = "idle" /\ now = Tr.start
           /\ IF Tr.entry = "waitnoecho" THEN EnterWNE(Tr.targ) ELSE Enter(Tr.entry, Tr.targ)
           /\ Same
 
-TReader == (Check \/ Read \/ Waiting \/ Recompute \/ WnePoll \/ WneRecompute) /\ Same
+TReader == (Check \/ Read \/ Waiting \/ Woken \/ Recompute \/ WnePoll \/ WneRecompute) /\ Same
 
 TAccept == /\ pc = "done" /\ outcome = Tr.obs.outcome /\ Elapsed = Tr.obs.elapsed
            /\ PrintT(<<"ACCEPT", tid, Tr.id>>)
            /\ pc' = "accepted"
            /\ UNCHANGED <<now, kbuf, hung, npeer, entry, targ, teff, endTime, tleft, waitEnd,
-                          outcome, startedAt, returnedAt, readableAtStart, consumed, echo, polls, tid, ei>>
+                          outcome, startedAt, returnedAt, readableAtStart, consumed, echo, polls, wake, tid, ei>>
 
 TNext == TPeer \/ TTick \/ TEnter \/ TReader \/ TAccept
 TraceSpec == TInit /\ [][TNext]_tvars
